@@ -27,6 +27,10 @@ pub struct ValidCase {
     pub cfg: EmfCfg,
     pub entry: GenEntry,
     pub rate_exp: Option<u8>,
+    /// entries formatted on the same formatters (validated and unvalidated twin) before the entry
+    /// under test: valid ones and ones with an injected defect
+    #[serde(default)]
+    pub warmup: Vec<GenEntry>,
 }
 
 #[derive(Clone, Debug, Serialize, Deserialize)]
@@ -117,15 +121,16 @@ fn sampling(rate_exp: Option<u8>) -> Sampling {
 /// (c) acceptance + transparency for entries inside the documented domain
 pub fn check_valid(case: &ValidCase) -> CaseResult {
     let s = sampling(case.rate_exp);
-    let (dec, out) = run_fmt(&case.cfg, &case.entry, &s)?;
+    let warm: Vec<&GenEntry> = case.warmup.iter().collect();
+    let (dec, out) = run_fmt_warm(&case.cfg, &warm, &case.entry, &s)?;
     vensure!(
         dec == Decision::Ok,
-        "valid-entry-rejected",
+        if warm.is_empty() { "valid-entry-rejected" } else { "valid-entry-rejected-on-warm-formatter" },
         "entry inside the documented domain was rejected by a validating formatter: {dec:?}"
     );
     let nrec = no_duplicate_members(&out, &case.entry)?;
     let twin = case.cfg.unvalidated_twin();
-    let (dec2, out2) = run_fmt(&twin, &case.entry, &s)?;
+    let (dec2, out2) = run_fmt_warm(&twin, &warm, &case.entry, &s)?;
     vensure!(
         dec2 == Decision::Ok,
         "valid-entry-rejected-unvalidated",
@@ -139,6 +144,9 @@ pub fn check_valid(case: &ValidCase) -> CaseResult {
         String::from_utf8_lossy(&out2)
     );
     let mut classes: Classes = vec!["accepted"];
+    if !warm.is_empty() {
+        classes.push("warm-formatter");
+    }
     classes.push(ctor_class(case.cfg.ctor));
     if nrec >= 2 {
         classes.push("multi-record");
@@ -194,19 +202,17 @@ pub fn check_defect(case: &DefectCase) -> CaseResult {
         "rejected entry wrote {} bytes",
         out.len()
     );
-    // the defects that are not gated by the validation switches are rejected without them too
+    // (observation only) some defects are structural and rejected without validations too; the
+    // property speaks of formatters with validations ENABLED, so this is counted, not demanded
+    let mut structural_also_rejected = false;
     if applied.iter().any(|d| d.unconditional()) {
-        let (dec2, out2) = run_fmt(&case.cfg.unvalidated_twin(), &entry, &s)?;
-        vensure!(
-            matches!(dec2, Decision::Validation(_)) && out2.is_empty(),
-            format!(
-                "defect-accepted-unvalidated:{}",
-                applied.iter().find(|d| d.unconditional()).unwrap().name()
-            ),
-            "structural defect {applied:?} accepted without validations: {dec2:?}"
-        );
+        let (dec2, _out2) = run_fmt(&case.cfg.unvalidated_twin(), &entry, &s)?;
+        structural_also_rejected = matches!(dec2, Decision::Validation(_));
     }
     let mut classes: Classes = vec!["rejected"];
+    if structural_also_rejected {
+        classes.push("structural-defect-rejected-without-validations-too");
+    }
     if case.warm {
         classes.push("warm-formatter");
     }
@@ -297,13 +303,16 @@ pub fn check_dim_key(case: &DimKeyCase) -> CaseResult {
     if case.cfg_dim {
         cfg.dims = vec![vec!["D".into()]];
     }
-    let key = match case.key_kind % 4 {
-        0 => "S",  // equals a string property
-        1 => "M",  // equals a metric of the same record
-        2 => "D",  // equals the configured dimension
-        _ => "K2", // repeated key in one set
+    let kk = case.key_kind % 6;
+    let key = match kk {
+        0 => "S",    // equals a string property
+        1 => "M",    // equals a metric of the same record
+        2 => "D",    // equals the configured dimension
+        3 => "K2",   // repeated key in one set
+        4 => "",     // empty name
+        _ => "_aws", // reserved name
     };
-    let dims = if case.key_kind % 4 == 3 {
+    let dims = if kk == 3 {
         vec![("K2".to_string(), "a".to_string()), ("K2".to_string(), case.value.clone())]
     } else {
         vec![(key.to_string(), case.value.clone())]
@@ -353,19 +362,31 @@ pub fn check_dim_key(case: &DimKeyCase) -> CaseResult {
                 nanos: 0,
                 before_epoch: false,
             },
-            m("W", if case.key_kind % 4 == 3 { vec![("K2".to_string(), case.value.clone())] } else { dims.clone() }),
+            m("W", if kk == 3 { vec![("K2".to_string(), case.value.clone())] } else { dims.clone() }),
         ],
         sample_group: vec![],
     };
-    let usable_warm = case.warm && !(case.cfg_dim) && case.key_kind % 4 != 3;
+    let usable_warm = case.warm && !(case.cfg_dim) && kk < 3;
     let warmup: Vec<&GenEntry> = if usable_warm { vec![&warm_entry] } else { vec![] };
     let (dec, out) = run_fmt_warm(&cfg, &warmup, &entry, &Sampling::None)?;
-    let mut classes: Classes = vec![match case.key_kind % 4 {
+    let mut classes: Classes = vec![match kk {
         0 => "key=string-name",
         1 => "key=metric-name",
         2 => "key=configured-dimension",
-        _ => "key=repeated",
+        3 => "key=repeated",
+        4 => "key=empty-name",
+        _ => "key=reserved-name",
     }];
+    if kk >= 4 {
+        // "an empty or reserved name": a per-metric dimension key becomes a member name of the
+        // record, so a validating formatter has to refuse it
+        vensure!(
+            matches!(dec, Decision::Validation(_)),
+            format!("defect-accepted:dimension-key-{}", if kk == 4 { "empty" } else { "reserved" }),
+            "per-metric dimension key {key:?} was accepted by a validating formatter ({}): {dec:?}",
+            ctor_class(case.ctor)
+        );
+    }
     match dec {
         Decision::Ok => {
             no_duplicate_members(&out, &entry)?;
@@ -394,31 +415,46 @@ pub fn run(ctx: &mut Ctx) {
     ctx.explore(
         SubCfg::new(
             "c08-valid-accepted-transparent",
-            "valid-by-construction entries x validating constructor of this profile x sampling: must be accepted, no record has a duplicated member, and the lines equal (multiset of byte strings) those of the unvalidated twin configuration. Non-trivial = >=2 records",
+            "valid-by-construction entries x validating constructor of this profile x sampling, on fresh formatters or (half of the cases) after 1-2 other entries - valid or defective - on the same validated and unvalidated formatters: must be accepted, no record has a duplicated member, and the lines equal (multiset of byte strings) those of the unvalidated twin configuration. Non-trivial = >=2 records",
             if q { 30_000 } else { 1_000_000 },
         )
         .threads(threads)
-        .mandatory(&["multi-record", "sampled", "ctor-all_validations"]),
+        .mandatory(&["multi-record", "sampled", "ctor-all_validations", "warm-formatter"]),
         || {
-            (arb_valid(true), arb_validating_ctor(), super::c03::arb_rate_exp()).prop_map(
-                |((cfg, entry), ctor, rate_exp)| {
+            (
+                crate::emfgen::arb_valid_seq(1..4, true),
+                arb_validating_ctor(),
+                super::c03::arb_rate_exp(),
+                prop::bool::weighted(0.5),
+                prop::collection::vec(prop::option::weighted(0.4, (crate::emfgen::arb_defect(), any::<u32>(), any::<u32>())), 3),
+            )
+                .prop_map(|((cfg, mut entries), ctor, rate_exp, warm, defects)| {
                     // re-normalise for the chosen constructor; the entry stays valid because
                     // normalisation only removes builder-only options -- except ignored-dimension
                     // mode, whose removal would make same-named metrics legal again (still valid)
                     let was_ignored = cfg.allow_ignored;
                     let cfg2 = cfg.with_ctor(ctor).normalize();
-                    let mut entry = entry;
+                    let mut entry = entries.pop().unwrap();
                     if was_ignored && !cfg2.allow_ignored {
                         // dimensioned metrics now need the split config
                         entry.ops.insert(0, Op::Config(CfgG::AllowSplit));
+                    }
+                    // warm-up entries: valid or with an injected defect (accepted or rejected, it
+                    // does not matter - the entry under test must come out the same)
+                    for (e, d) in entries.iter_mut().zip(defects) {
+                        if let Some((d, sd, p)) = d {
+                            if let Some(e2) = inject(&cfg2, e, d, sd, p) {
+                                *e = e2;
+                            }
+                        }
                     }
                     ValidCase {
                         cfg: cfg2,
                         entry,
                         rate_exp,
+                        warmup: if warm { entries } else { vec![] },
                     }
-                },
-            )
+                })
         },
         check_valid,
     );
@@ -511,13 +547,13 @@ pub fn run(ctx: &mut Ctx) {
     ctx.explore(
         SubCfg::new(
             "c08-dimension-key-collisions",
-            "split-mode entries whose per-metric dimension key equals a string property, a metric of the same record, a configured dimension, or is repeated within the set (all op orders, with/without a second record): accepted => no duplicated member. Non-trivial = every case",
+            "split-mode entries whose per-metric dimension key equals a string property, a metric of the same record, a configured dimension, is repeated within the set, is empty or is the reserved name _aws (all op orders, with/without a second record): accepted => no duplicated member; an empty or reserved key must be rejected. Non-trivial = every case",
             if q { 3_000 } else { 60_000 },
         ),
         || {
             (
                 arb_validating_ctor(),
-                0u8..4,
+                0u8..6,
                 0u8..8,
                 any::<bool>(),
                 any::<bool>(),
